@@ -14,6 +14,7 @@ import (
 	"sort"
 
 	"github.com/zclconf/go-cty/cty"
+	"github.com/zclconf/go-cty/cty/function"
 )
 
 func init() {
@@ -100,7 +101,19 @@ func driveOps(c *Ctx) error {
 		}
 		rs := collect(reps*2, func(int) []cty.Value { return a0 })
 		rr := collect(reps, func(i int) []cty.Value { return concretizeArgs(aj, i) })
-		c.Out.Emit(J{"ev": "call", "api": api, "x": x, "a": projectArgs(a0), "r": run(api, a0, x), "rs": rs, "rr": rr})
+		ev := J{"ev": "call", "api": api, "x": x, "a": projectArgs(a0), "r": run(api, a0, x), "rs": rs, "rr": rr}
+		if len(api) > 3 && api[:3] == "fn:" {
+			if f, ok := lookupFunc(api[3:], x); ok {
+				ev["fn"] = api[3:]
+				tys := make([]cty.Type, len(a0))
+				for i, v := range a0 {
+					tys[i] = v.Type()
+				}
+				ev["rt"] = typeRes(func() (cty.Type, error) { return f.ReturnType(tys) })
+				ev["rtv"] = typeRes(func() (cty.Type, error) { return f.ReturnTypeForValues(a0) })
+			}
+		}
+		c.Out.Emit(ev)
 	}
 	return readLines(c.In, func(j J) error {
 		api := asS(j["api"])
@@ -125,6 +138,23 @@ func driveOps(c *Ctx) error {
 		}
 		return nil
 	})
+}
+
+func typeRes(fn func() (cty.Type, error)) J {
+	var t cty.Type
+	var err error
+	p, msg := guard(func() { t, err = fn() })
+	switch {
+	case p:
+		return failed("panic", trunc(msg))
+	case err != nil:
+		r := failed("error", trunc(err.Error()))
+		if _, ok := err.(function.PanicError); ok {
+			r["fail"] = "panicerror"
+		}
+		return r
+	}
+	return J{"ok": true, "t": ProjectType(t)}
 }
 
 // allowMarked reports, per argument position, the AllowMarked flag the real
